@@ -571,6 +571,8 @@ pub struct World {
     pub task_result: [Rc<RefCell<Option<Result<(), String>>>>; 2],
     pub rng_draws: [Rc<RefCell<Vec<u32>>>; 2],
     pub rng_inject: [Rc<RefCell<std::collections::VecDeque<u32>>>; 2],
+    /// the byte pipes under the endpoints' real tungstenite WebSockets (`two_tungstenite` only; `sim.link` is unused then)
+    pub pipe: Option<crate::bytepipe::BytePipe>,
 }
 
 impl World {
@@ -587,6 +589,7 @@ impl World {
             task_result: [Rc::new(RefCell::new(None)), Rc::new(RefCell::new(None))],
             rng_draws: [Rc::new(RefCell::new(Vec::new())), Rc::new(RefCell::new(Vec::new()))],
             rng_inject: [Rc::new(RefCell::new(std::collections::VecDeque::new())), Rc::new(RefCell::new(std::collections::VecDeque::new()))],
+            pipe: None,
         };
         w.add_endpoint(0, a);
         w.add_endpoint(1, b);
@@ -604,18 +607,60 @@ impl World {
             task_result: [Rc::new(RefCell::new(None)), Rc::new(RefCell::new(None))],
             rng_draws: [Rc::new(RefCell::new(Vec::new())), Rc::new(RefCell::new(Vec::new()))],
             rng_inject: [Rc::new(RefCell::new(std::collections::VecDeque::new())), Rc::new(RefCell::new(std::collections::VecDeque::new()))],
+            pipe: None,
         };
         w.add_endpoint(side, cfg);
         w.sim.raw_side = Some(1 - side);
         w
     }
 
+    /// Two real endpoints whose WebSocket is a REAL `tokio_tungstenite::WebSocketStream` (A in the client role, B in the
+    /// server role, no HTTP handshake) over the in-memory byte pipes of `bytepipe.rs` with `cap_bytes` per direction: the
+    /// crate's tungstenite adapter (`ws.rs`) and tungstenite's close / end-of-file / error behaviour are part of the system.
+    /// Deliveries of the pipes are the `Step::Deliver` steps of the simulator; `sim.link` stays empty.
+    pub fn two_tungstenite(cap_bytes: usize, a: &SideCfg, b: &SideCfg) -> Self {
+        use tokio_tungstenite::{WebSocketStream, tungstenite::protocol::{Role, WebSocketConfig}};
+        // tungstenite's defaults except the size of the read buffer: the default (128 KiB) is allocated per endpoint and
+        // zero-filled on EVERY read of the byte stream (~2 ms per execution, 20x the rest); 4 KiB holds every frame of
+        // the scenarios many times over and changes nothing but the chunking of reads
+        let wscfg = WebSocketConfig::default().read_buffer_size(4096);
+        let pipe = crate::bytepipe::BytePipe::new(cap_bytes);
+        let mut w = World::two_unconnected();
+        w.sim.xport = Some(Rc::new(pipe.clone()));
+        for (side, cfg) in [(0, a), (1, b)] {
+            // `from_raw_socket` only wraps the stream: ready at its first poll (the waker it registers is replaced by the
+            // connection task's at the first `poll_next`)
+            let mut mk = Box::pin(WebSocketStream::from_raw_socket(pipe.endpoint(side), if side == 0 { Role::Client } else { Role::Server }, Some(wscfg)));
+            let std::task::Poll::Ready(ws) = mk.as_mut().poll(&mut std::task::Context::from_waker(std::task::Waker::noop())) else { panic!("from_raw_socket not ready at once") };
+            w.add_endpoint_on(side, cfg, ws);
+        }
+        w.pipe = Some(pipe);
+        w
+    }
+
+    fn two_unconnected() -> Self {
+        World {
+            sim: Sim::new(Link::new(crate::link::UNBOUNDED_CAP)),
+            obs: Rc::new(RefCell::new(Obs::default())),
+            mux: [None, None],
+            task_idx: [None, None],
+            task_result: [Rc::new(RefCell::new(None)), Rc::new(RefCell::new(None))],
+            rng_draws: [Rc::new(RefCell::new(Vec::new())), Rc::new(RefCell::new(Vec::new()))],
+            rng_inject: [Rc::new(RefCell::new(std::collections::VecDeque::new())), Rc::new(RefCell::new(std::collections::VecDeque::new()))],
+            pipe: None,
+        }
+    }
+
     fn add_endpoint(&mut self, side: usize, cfg: &SideCfg) {
         let ws: MemWs = self.sim.link.endpoint(side);
+        self.add_endpoint_on(side, cfg, ws);
+    }
+
+    fn add_endpoint_on<S: penguin_mux::ws::WebSocket>(&mut self, side: usize, cfg: &SideCfg, ws: S) {
         let rng = ScriptRng::new(&cfg.rng, if side == 0 { 0x0a00_0000 } else { 0x0b00_0000 });
         self.rng_draws[side] = rng.draws.clone();
         self.rng_inject[side] = rng.inject.clone();
-        let (mux, taskdata) = Mux::new_detailed::<MemWs, VClock>(ws, cfg.opts, rng);
+        let (mux, taskdata) = Mux::new_detailed::<S, VClock>(ws, cfg.opts, rng);
         self.mux[side] = Some(Rc::new(mux));
         let res = self.task_result[side].clone();
         let name = if side == 0 { "taskA" } else { "taskB" };
